@@ -38,10 +38,11 @@ SCRATCH_ROOT = '/dev/shm' if os.path.isdir('/dev/shm') else tempfile.gettempdir(
 TREE = [
     'A/song.mp3', 'A/my long song.mp3', 'A/So_Long-Live (été).flac', 'A/01 - ong.mp3',
     'A/zzsub/片仮名 song.mp3', 'A/zzsub/live [01] & so.mp3', "A/zzsub/deep/long's.ogg",
-    'A/other/honey money.txt', 'A/other/zzsub/so long.mp3', 'B/song.mp3', 'B/live/SONG_long.MP3', 'B/été/01.flac',
+    'A/other/honey money.txt', 'A/other/zzsub/so long.mp3', 'A/zz/prefix song.mp3', 'B/song.mp3', 'B/live/SONG_long.MP3', 'B/été/01.flac',
 ]
 EXTRA = ['A/zzsub/new song.mp3', 'B/new long.mp3']
-ROOTS = ['A', 'A/zzsub', 'A/zzsub/deep', 'B']
+# 'A/zz' is a sibling of 'A/zzsub' whose path is a string prefix of it (not a parent)
+ROOTS = ['A', 'A/zzsub', 'A/zzsub/deep', 'B', 'A/zz']
 TERMS = ['song', 'long', 'ong', 'so', 'live', 'été', '片仮名', '01', 'mp3', '*ong', '*ive', '*so', '*oney', '-song',
          '-live', '-mp3', 'so_long', "long's", '[01]', '&', 'nomatch', 'SONG', 'deep\\long', 'live\\song_long',
          'honey', '*ong.mp3', '-', '*']
@@ -201,7 +202,8 @@ class Rig:
         return os.path.relpath(path, self.base)
 
     def canon(self):
-        return (self.ref.key(), tuple(sorted(self.disk)))
+        # the modification times belong to the state: a file touched since the last scan makes the next scan differ
+        return (self.ref.key(), tuple(sorted((p, int(os.stat(p).st_mtime)) for p in self.disk)))
 
     def close(self):
         self.world.close()
